@@ -160,6 +160,9 @@ def idx_shape(shape, idx):
 
 
 class UnitTok(Model):
+    def truth(self):
+        return True          # a pint Unit object is always truthy (no __bool__/__len__)
+
     kinds = ("Unit",)
 
     def __init__(self, name):
@@ -316,6 +319,24 @@ class ArrTok(Model):
 
     def __truediv__(self, o):
         return OpTok("__truediv__", self, o)
+
+    # x op= y updates the Array IN PLACE (Array.__iadd__ & co. pass out=self): the object keeps its identity, every reference sees the new data
+    def _inplace(self, op, o):
+        new = OpTok(op, self, o)
+        self.origin, self.unit = new.origin, new.unit
+        return self
+
+    def __iadd__(self, o):
+        return self._inplace("__iadd__", o)
+
+    def __isub__(self, o):
+        return self._inplace("__isub__", o)
+
+    def __imul__(self, o):
+        return self._inplace("__imul__", o)
+
+    def __itruediv__(self, o):
+        return self._inplace("__itruediv__", o)
 
     def __rmul__(self, o):
         return OpTok("__rmul__", self, o)
